@@ -559,7 +559,10 @@ class Splicer:
             ptext = rs.norm(toks, c["params_lo"], c["params_hi"])
             if n in specd:
                 cs = specd[n]
-                if rs.norm_text(cs.params) != ptext:
+                if "%s#%d" % (key, n) in getattr(self, "skip_closures", ()):
+                    g.meta["skipped_anchors"].append({"fn": key, "kind": "closure", "ordinal": n, "expected": cs.params, "found": ptext, "forced": True})
+                    cs = None
+                elif rs.norm_text(cs.params) != ptext:
                     g.meta["skipped_anchors"].append({"fn": key, "kind": "closure", "ordinal": n,
                                                       "expected": cs.params, "found": ptext})
                     cs = None
@@ -590,7 +593,8 @@ class Splicer:
                 self.sub(c["params_lo"] + 1, c["params_lo"] + 2, "_p", "R4") if toks[c["params_lo"] + 1].text == "_" else None
         for n in specd:
             if n > len(cls):
-                g.meta["skipped_anchors"].append({"fn": key, "kind": "closure", "ordinal": n, "expected": specd[n].params, "found": None})
+                # the closure is gone altogether: there is no closure left whose unspecified result could be what a proof lacks
+                g.meta["skipped_anchors"].append({"fn": key, "kind": "closure", "ordinal": n, "expected": specd[n].params, "found": None, "excuses": False})
         if fs is None:
             return
         # loops
@@ -777,7 +781,8 @@ class Splicer:
             if not done:
                 # the code no longer has that shape: nothing to rewrite, the function is verified as it stands (without the
                 # loop spec, which has nothing to attach to); if it still uses an adapter Verus rejects, it is demoted
-                g.meta["skipped_anchors"].append({"fn": key, "kind": "rule", "ordinal": 20, "expected": "tail expression `[A &&] X.all(|p| E)`", "found": None})
+                still_ = bool(self.loops(body_lo + 1, body_hi)) or any(toks[k_].kind == "ident" and toks[k_].text in ("all", "any", "fold", "try_fold", "for_each", "find", "position") and toks[k_ - 1].text == "." for k_ in range(body_lo + 1, body_hi))
+                g.meta["skipped_anchors"].append({"fn": key, "kind": "rule", "ordinal": 20, "expected": "tail expression `[A &&] X.all(|p| E)`", "found": None, "excuses": still_})
         # R16: `RECV.for_each([move] |PAT| { BODY });`  ->  `let mut __it = RECV; while let Some(PAT) = __it.next() { BODY }`
         #      (libcore's provided Iterator::for_each is fold((), ..), and fold is `while let Some(x) = self.next()`)
         # R17: `RECV.size_hint()` on a generic iterator -> `iter_size_hint(&RECV)` (trusted identity wrapper, result unconstrained)
@@ -897,7 +902,7 @@ class Splicer:
                 self.sub(recv_lo, hi_, newt, "R21")
                 g.meta["r13_r14"].append({"fn": key, "rule": "R21", "before": before, "after": newt})
             if not self.r21:
-                g.meta["skipped_anchors"].append({"fn": key, "kind": "rule", "ordinal": 21, "expected": "a bucket dereference `.as_ref()` / `.as_mut()`", "found": None})
+                g.meta["skipped_anchors"].append({"fn": key, "kind": "rule", "ordinal": 21, "expected": "a bucket dereference `.as_ref()` / `.as_mut()`", "found": None, "excuses": False})
         # R13
         if "R13" in fs.rules:
             s = [k for k in range(body_lo, body_hi) if toks[k].kind not in ("ws", "comment", "doc")]
@@ -1378,6 +1383,7 @@ def main():
     ap.add_argument("--specs", nargs="*", default=None)
     ap.add_argument("--demote", action="append", default=[])
     ap.add_argument("--record-params", action="store_true", help="write contracts/params.json from the current tree (done once on the pinned tree)")
+    ap.add_argument("--skip-closure", action="append", default=[], help="FN#ordinal: leave this closure contract out (tools/hintmap.py)")
     ap.add_argument("--skip-ghost", action="append", default=[], help="leave this proof hint out (tools/hintmap.py: which clauses does a hint serve?)")
     ap.add_argument("--probes", action="store_true", help="vacuity run: assert(false) at the start of every contracted fn and loop body")
     a = ap.parse_args()
@@ -1389,6 +1395,7 @@ def main():
         PINNED_PARAMS.update(json.load(open(pp)))
     sp = Splicer(a.repo, g, probes=a.probes, demote=a.demote)
     sp.skip_ghosts = set(a.skip_ghost)
+    sp.skip_closures = set(a.skip_closure)
     g.raw("// GENERATED by tools/splice.py from %s -- do not edit\n" % a.repo)
     g.raw("#![allow(unused_imports, dead_code, unused_variables, unused_mut, unused_unsafe, unreachable_code, non_snake_case)]\n")
     g.raw("use vstd::prelude::*;\nuse vstd::multiset::Multiset;\nuse core::mem;\nuse core::iter::FusedIterator;\n"
